@@ -838,6 +838,12 @@ func genBatch(prop string, g *Gen, m *Model, rng *SplitMix) []Cmd {
 		if rng.Chance(1, 2) {
 			cmds = append(cmds, Cmd{Op: "init"})
 		}
+		if rng.Chance(1, 2) {
+			cmds = append(cmds, Cmd{Op: g.oneOf("compact", "compact", "plan"), Plan: g.planDoc(false)})
+			if cmds[len(cmds)-1].Op == "compact" {
+				cmds[len(cmds)-1].Plan = nil
+			}
+		}
 	case "C09":
 		// prune racing writers that make its targets ineligible
 		cmds = []Cmd{{Op: "prune", Yes: true}}
@@ -933,6 +939,9 @@ func runConcSample(bin, prop string, seed uint64, thorough bool) *RunReport {
 	if (prop == "C13" || prop == "C02") && rng.Chance(1, 3) {
 		sc.Config.Layout = "legacy" // a store that still uses events.jsonl
 	}
+	if prop == "C18" {
+		sc.Config.Layout = []string{"legacy", "legacy", "both", "", "nested", "legacy+nested"}[rng.Intn(6)]
+	}
 	if prop == "C13" || prop == "C02" {
 		if rng.Chance(1, 2) {
 			sc.Config.ShortWriteDen = 2
@@ -975,7 +984,7 @@ func runConcSample(bin, prop string, seed uint64, thorough bool) *RunReport {
 			r.ExecStep(st)
 		}
 	}
-	if prop == "C18" {
+	if prop == "C18" && rng.Chance(1, 2) {
 		st := Step{Disk: &DiskOp{Kind: "lock_missing"}}
 		sc.Steps = append(sc.Steps, st)
 		r.ExecStep(st)
